@@ -217,7 +217,8 @@ impl<E: Elem + Clone> Sut<E> {
         let drops = DropScope::new();
         RESERVE_CALLS.with(|c| c.set(0));
         DROP_CALLS.with(|c| c.set(0));
-        let mut cv: Option<CVec<E>> = None;
+        // leaked (not dropped) when a violation makes us return early
+        let mut cv: std::mem::ManuallyDrop<Option<CVec<E>>> = std::mem::ManuallyDrop::new(None);
         let mut model: Option<Vec<u64>> = None;
         let mut fresh = 0u64;
         let mut next_val = || {
@@ -234,7 +235,7 @@ impl<E: Elem + Clone> Sut<E> {
                 Op::Default => {
                     let mut c = CVec::<E>::default();
                     install(&mut c)?;
-                    cv = Some(c);
+                    *cv = Some(c);
                     model = Some(Vec::new());
                     may_realloc_without_reserve = true;
                 }
@@ -256,7 +257,7 @@ impl<E: Elem + Clone> Sut<E> {
                         bail2("vec:from", at("From<Vec> did not adopt the buffer/len/capacity"))?;
                     }
                     install(&mut c2)?;
-                    cv = Some(c2);
+                    *cv = Some(c2);
                     model = Some(m);
                     may_realloc_without_reserve = true;
                 }
@@ -340,7 +341,7 @@ impl<E: Elem + Clone> Sut<E> {
                         bail2("vec:drop_fn", at("dropping the source did not call the stored drop_fn once with (data,len,capacity)"))?;
                     }
                     install(&mut cl)?;
-                    cv = Some(cl);
+                    *cv = Some(cl);
                     may_realloc_without_reserve = true;
                 }
                 Op::Write(i) => {
@@ -400,7 +401,7 @@ impl<E: Elem + Clone> Sut<E> {
             obs.push(digest(&(now, c.capacity() as u64)));
         }
         // ---- canonical key (before teardown)
-        let key = match (&cv, &model) {
+        let key = match (&*cv, &model) {
             (Some(c), Some(m)) => digest(&(E::NAME, rank_pattern(m), c.len(), c.capacity())),
             _ => digest(&(E::NAME, "root")),
         };
